@@ -121,6 +121,14 @@ where
         // 1. Computing the matrix dimensions.
         let (n_rows, n_cols) = param.compute_dimensions(coeffs.len());
 
+        assert!(
+            coeffs.len() <= n_rows * n_cols,
+            "Polynomial with {} coefficients does not fit the {} x {} matrix of the parameters",
+            coeffs.len(),
+            n_rows,
+            n_cols
+        );
+
         // padding the coefficient vector with zeroes
         coeffs.resize(n_rows * n_cols, F::zero());
 
